@@ -151,10 +151,11 @@ class World(object):
 
     def _write_inputs2(self):
         for i, c in enumerate(self.contents):
-            p = os.path.join(self.input_dir, "c%d" % i)
-            if not os.path.exists(p):
-                with seam.real_open(p, "wb") as f:
-                    f.write(c)
+            for name in ("c%d" % i, "c%d.copy" % i):
+                p = os.path.join(self.input_dir, name)
+                if not os.path.exists(p):
+                    with seam.real_open(p, "wb") as f:
+                        f.write(c)
         for i, c in enumerate(self.mcontents):
             p = os.path.join(self.input_dir, "m%d" % i)
             if not os.path.exists(p):
